@@ -1574,12 +1574,12 @@ func ruleFilterNamesTable(c *eng.Ctx, R string, fd *eng.FuncDecl) bool {
 	}
 	for _, pair := range isoFilters {
 		long, short := pair[0], pair[1]
-		hl, hs := tableHandler(tbl[long]), tableHandler(tbl[short])
+		hl, hs := handlerKey(tbl[long]), handlerKey(tbl[short])
 		key := "core.decodeWithFilter#case " + long + "/" + short
 		switch {
 		case tbl[long] == nil || tbl[short] == nil:
 			c.Viol(R, key, lk.Pos(), fmt.Sprintf("filter name %q or its abbreviation %q has no entry: streams using it fall into the unknown-filter error", long, short))
-		case hl == nil || hl != hs:
+		case hl == "" || hl != hs:
 			c.Viol(R, key, lk.Pos(), fmt.Sprintf("%q and its abbreviation %q are handled by different functions", long, short))
 		default:
 			c.Ok(R, key, lk.Pos(), "long and abbreviated name share a handler")
@@ -1637,4 +1637,35 @@ func absSlice(v ssa.Value, leaf func(ssa.Value) (*eng.Poly, bool)) (base ssa.Val
 		hi = blo.Add(p)
 	}
 	return b, lo, hi, true
+}
+
+// handlerKey identifies what a table entry stands for, so that two entries can be compared: a function, or the result
+// of a factory of the module called with constant arguments (unimplemented("LZWDecode")).
+func handlerKey(v ssa.Value) string {
+	if f := tableHandler(v); f != nil {
+		return "fn:" + eng.FuncName(f)
+	}
+	for {
+		ct, ok := v.(*ssa.ChangeType)
+		if !ok {
+			break
+		}
+		v = ct.X
+	}
+	if call, ok := v.(*ssa.Call); ok {
+		g := eng.StaticCallee(call)
+		if g == nil || !eng.InModule(g) {
+			return ""
+		}
+		key := "call:" + eng.FuncName(g) + "("
+		for _, a := range call.Call.Args {
+			cst, ok := a.(*ssa.Const)
+			if !ok || cst.Value == nil {
+				return ""
+			}
+			key += cst.Value.ExactString() + ","
+		}
+		return key + ")"
+	}
+	return ""
 }
